@@ -254,10 +254,22 @@ func (r *run) checkC15(d *delivery, i int) {
 	}
 	for _, v := range viewers {
 		view := fromJSON(d.postJSON) // the table layer clones through JSON before redacting
-		if v < 0 {
-			view.AsObserver()
-		} else {
-			view.AsPlayer(v)
+		pan := func() (pan string) {
+			defer func() {
+				if x := recover(); x != nil {
+					pan = fmt.Sprint(x)
+				}
+			}()
+			if v < 0 {
+				view.AsObserver()
+			} else {
+				view.AsPlayer(v)
+			}
+			return ""
+		}()
+		if pan != "" {
+			r.viol("C15", "view-call-panicked", fmt.Sprintf("preparing the view for viewer %d at %s panicked: %s", v, post.Status.CurrentEvent, pan), i)
+			continue
 		}
 		js, err := json.Marshal(view)
 		if err != nil {
